@@ -58,7 +58,7 @@ def trailers_after_early_response(op, impl, model):
     m = re.search(r'ev=(\S+)', op)
     if not m:
         return False
-    toks = m.group(1).split(',')
+    toks = [t for t in m.group(1).split(',') if not t.startswith('M:')]   # (M: client-side encoder change, no frame, no slot)
     io, mo = impl.split('/'), model.split('/')
     early = set()
     for k, t in enumerate(toks):
